@@ -47,10 +47,23 @@ class InitCursor:
         """Contrapt new initializer element, and append to stack."""
         is_toplevel = self.is_toplevel
         # Get current initializer:
-        if is_toplevel:
+        if is_toplevel or not implicit:
+            # A braced initializer for a subobject replaces everything
+            # that was given before for parts of it (C99 6.7.8p19).
             initializer = None
         else:
+            # Continue with what was given so far, as in '.b[0]=1, .b[1]=2'
             initializer = self.get_value()
+            if initializer is not None and not isinstance(
+                initializer,
+                (
+                    expressions.StructInitializer,
+                    expressions.UnionInitializer,
+                    expressions.ArrayInitializer,
+                ),
+            ):
+                # The subobject was given as a whole by an expression.
+                initializer = None
 
         init_level = self._make_init_level(
             typ, location, initializer, implicit
@@ -219,7 +232,9 @@ class UnionInitLevel(InitLevel):
         self._end = True
 
     def get_value(self):
-        return self.initializer.value
+        # Storing into another member overrides the previous member.
+        if self.initializer.field is self._field:
+            return self.initializer.value
 
     def set_value(self, value):
         self.initializer.field = self._field
